@@ -13,7 +13,7 @@ LEVEL = "exploration"
 VARIANTS = ["fast"]
 RULE = ("all operation/scope sequences: locals space (ops on _a/_b: assign, private assign, private string/array, params with / without an input element, read; "
         "openers call/if/forEach/for/while/count/spawn) and globals space (ga/GA/Ga plain, get/setVariable on mission/ui namespace, "
-        "allVariables; openers call/with-do/spawn) with <=3 ops + <=2 scopes (quick) / <=4 ops + <=3 scopes (thorough); "
+        "allVariables; openers call/with-do/spawn) with <=3 ops + <=2 scopes (quick); thorough: <=4 ops + <=1 scope, <=3 ops + <=2 scopes, <=3 ops + 3 nested scopes; "
         "non-trivial = program has at least one read after a write; distinct by sequence")
 ASSUMPTIONS = [
     "excluded (not fixed by the statement): `private` declaration (string/array form) of a name already bound in the same scope",
@@ -306,7 +306,9 @@ def spaces(tier):
                 Space("locals-2scopes", gen(["w", "pw", "ps", "pr", "r", "rb", "wb"], ["call", "foreach", "spawn", "while"], 3, 2, 2), check, variant="fast",
                       describe="locals: <=3 ops, 2 scopes (nested or sequential), 4 openers"),
                 Space("globals", gen(G_OPS, ["call", "withui", "spawn"], 3, 2, 2), check, variant="fast", describe="globals/namespaces: <=3 ops, <=2 scopes, depth<=2")]
-    return [Space("locals", gen(L_OPS, L_OPEN, 4, 2, 2), check, variant="fast", describe="locals: <=4 ops, <=2 scopes, depth<=2"),
+    return [Space("locals-4ops-1scope", gen(L_OPS, L_OPEN, 4, 1, 1), check, variant="fast", describe="locals: <=4 ops, <=1 scope, all 7 openers"),
+            Space("locals-3ops-2scopes", gen(L_OPS, L_OPEN, 3, 2, 2), check, variant="fast", describe="locals: <=3 ops, <=2 scopes (nested or sequential), all 7 openers"),
             Space("locals-deep", gen(["w", "pw", "ps", "r"], ["call", "foreach", "spawn", "if"], 3, 3, 3), check, variant="fast", describe="locals: <=3 ops, 3 scopes, depth 3"),
-            Space("globals", gen(G_OPS, G_OPEN, 4, 2, 2), check, variant="fast", describe="globals/namespaces: <=4 ops, <=2 scopes"),
+            Space("globals-4ops-1scope", gen(G_OPS, G_OPEN, 4, 1, 1), check, variant="fast", describe="globals/namespaces: <=4 ops, <=1 scope"),
+            Space("globals-3ops-2scopes", gen(G_OPS, G_OPEN, 3, 2, 2), check, variant="fast", describe="globals/namespaces: <=3 ops, <=2 scopes"),
             Space("globals-deep", gen(["gw", "Gr", "uiw", "uir", "nsr"], G_OPEN, 3, 3, 3), check, variant="fast", describe="globals: <=3 ops, 3 scopes, depth 3")]
